@@ -146,6 +146,7 @@ def prepare_tree(slot, real_zeroize=False, replay=False):
     if "[patch.crates-io]" in man:
         raise InfraError("workspace manifest already has a [patch] table")
     man += '\n[patch.crates-io]\nkestrel-crypto = { path = "src/crypto" }\n'
+    man += 'ct-codecs = { path = "%s" }\n' % os.path.join(VERIF, "harness", "env", "ct-codecs-kani")
     if not real_zeroize:
         man += 'zeroize = { path = "%s" }\n' % os.path.join(VERIF, "harness", "env", "zeroize-kani")
     with open(ws, "w") as f:
